@@ -658,8 +658,24 @@ def _build_ensemble(case):
             inputs.append(v if s["kind"] == "ket1d" else v.reshape(-1, 1))
             rhos.append(np.outer(v, v.conj()))
     n = len(rhos)
+    near = case.get("near")
+    if near:
+        # state j becomes state 0 turned by the small angle theta towards a drawn orthogonal direction (ket kinds only)
+        j, theta = int(near["j"]), float(near["theta"])
+        g = gen.rng(case["seed"] * 64 + 63)
+        v0 = np.asarray(inputs[0]).reshape(-1)
+        w = g.normal(size=d) + (0 if np.isrealobj(v0) else 1j * g.normal(size=d))
+        w = w - v0 * (v0.conj() @ w)
+        w = w / np.linalg.norm(w)
+        v = np.cos(theta) * v0 + np.sin(theta) * w
+        inputs[j] = v if np.asarray(inputs[j]).ndim == 1 else v.reshape(-1, 1)
+        rhos[j] = np.outer(v, v.conj())
     pk = case["priors"]
-    if pk in ("none", "uniform"):
+    if pk == "tiny":
+        t = float(case["tiny"]["p"])
+        p = [(1 - t) / (n - 1)] * n
+        p[int(case["tiny"]["z"])] = t
+    elif pk in ("none", "uniform"):
         p = [1 / n] * n
     elif pk == "dyadic":
         p = gen.exact_probs(case["counts"])
@@ -706,6 +722,47 @@ def check_pgm_pbm(case):
         g = r @ (p[i] * rhos[i]) @ r
         req(float(np.max(np.abs(np.asarray(pgm[i]) - g))) <= 1e-6, f"pretty_good_measurement: operator {i} differs from P^-1/2 p_i rho_i P^-1/2", "pgm:formula")
         req(float(np.max(np.abs(np.asarray(pbm[i]) - (np.eye(d) - g) / (n - 1)))) <= 1e-6, f"pretty_bad_measurement: operator {i} differs from (I - G_i)/(n-1)", "pbm:formula")
+
+
+@st.composite
+def _ill_ensemble_case(draw):
+    """Spanning ensembles of exactly d pure states (every state is needed) whose average state is nearly singular:
+    one prior of 1e-7 ... 1e-9, or two kets 1e-3 ... 1e-4 rad apart.  'All ensembles ... with arbitrary priors' includes
+    them; seeded change C19-c2 (inverse square root restricted to eigenvalues above 1e-8) was missed while every
+    average state below 1e-6 was skipped."""
+    d = draw(st.integers(2, 4))
+    states = [{"kind": draw(st.sampled_from(["ket1d", "ketcol"])), "rank": 1} for _ in range(d)]
+    c = {"d": d, "real": draw(st.booleans()), "states": states, "seed": draw(gen.SEED), "parray": draw(st.booleans())}
+    if draw(st.booleans()):
+        c["priors"] = "tiny"
+        c["tiny"] = {"z": draw(st.integers(0, d - 1)), "p": draw(st.sampled_from([1e-7, 1e-8, 3e-9, 1e-9]))}
+    else:
+        c["priors"] = draw(st.sampled_from(["none", "uniform"]))
+        c["near"] = {"j": draw(st.integers(1, d - 1)), "theta": draw(st.sampled_from([1e-3, 3e-4, 1e-4]))}
+    return c
+
+
+def check_pgm_pbm_ill(case):
+    from toqito.measurements import pretty_bad_measurement, pretty_good_measurement
+
+    inputs, rhos, p, arg = _build_ensemble(case)
+    d, n = case["d"], len(rhos)
+    lam = float(_lam(sum(pi * r for pi, r in zip(p, rhos)))[0])
+    if not 1e-10 <= lam <= 1e-5:
+        raise Inconclusive("average state not in the ill-conditioned band")
+    # rounding grows like eps / lambda_min (2e-4 observed at 1e-9 on the unchanged tree); dropping a direction costs 1
+    tol = 2e-2
+    pgm = pretty_good_measurement(inputs, arg)
+    pbm = pretty_bad_measurement(inputs, arg)
+    _require_povm(pgm, d, n, "pgm[ill-conditioned]", tol)
+    _require_povm(pbm, d, n, "pbm[ill-conditioned]", tol)
+    for i in range(n):
+        dev = float(np.max(np.abs(np.asarray(pbm[i]) - (np.eye(d) - np.asarray(pgm[i])) / (n - 1))))
+        req(dev <= tol, f"pretty_bad_measurement: operator {i} differs from (I - G_i)/(n-1) by {dev:.2e} (ill-conditioned ensemble)", "pbm:formula")
+
+
+def nt_ill(case):
+    return "tiny-prior:%g" % case["tiny"]["p"] if case["priors"] == "tiny" else "near-parallel:%g" % case["near"]["theta"]
 
 
 def nt_ensemble(case):
@@ -994,6 +1051,7 @@ SUBCHECKS = [
     SubCheck("seed_difference", check_seed_difference, _seeddiff_case, nt_seeddiff, quick=8000, thorough=130000),
     SubCheck("history", HISTORY.replay, machine=HISTORY, nontrivial=nt_history, quick=1600, thorough=26000),
     SubCheck("pgm_pbm_povm", check_pgm_pbm, _ensemble_case, nt_ensemble, quick=4000, thorough=70000),
+    SubCheck("pgm_pbm_ill_conditioned", check_pgm_pbm_ill, _ill_ensemble_case, nt_ill, quick=1500, thorough=25000),
     SubCheck("pgm_bad_priors", check_bad_priors, _badprior_case, lambda c: f"badpriors:{c['which']}:{c['bad']}", quick=800, thorough=12000, shards=4),
     SubCheck("pgm_bounds", check_pgm_bounds, lambda: _ensemble_case(dmax=4, nmax=5), nt_ensemble, quick=1200, thorough=20000, case_timeout=30),
     SubCheck("measure", check_measure, _measure_case, nt_measure, quick=8000, thorough=140000, fuzz=8000),
